@@ -892,12 +892,15 @@ func lemmaCreateThenMapQueue(data []byte, cap uint32) {
 //@   ensures  result != nil && fresh(result) && wfPool(result) && result.head == 0 && result.tail == 0 && result.capacity == poolCapacity
 //@   modifies nothing
 
-// thin contracts of what the pool calls (their bodies are verified under other properties or not at all)
+// OpenStream: a stream or an error, never neither (finding F13), and no panic on a session whose close task
+// already dropped the stream table (F14) - hence NO precondition on s.streams or s.shutdownErr: it is called by
+// user goroutines while the session may be closing.
 //@ func (*Session).OpenStream
 //@   ensures  r1 == nil ==> r0 != nil && r0.state == 0
 //@   ensures  r1 != nil ==> r0 == nil
 //@   modifies heap
 
+// thin contract (its body is verified under other properties or not at all)
 //@ func (*Stream).ReleaseReadAndReuse
 //@   modifies heap, s.recvBuf, s.sendBuf
 
